@@ -7,6 +7,7 @@ import Driver.OpsSql
 import Driver.OpsSort
 import Driver.OpsJoin
 import Driver.OpsLoad
+import Driver.OpsStats
 
 open Lean Df.Codec
 
@@ -29,6 +30,7 @@ def ops : List (String × (Json → R Json)) :=
    ("join", Df.Ops.opJoin),
    ("hdr", Df.Ops.opHdr),
    ("wrap", Df.Ops.opWrap),
+   ("dumpstats", Df.Ops.opDumpStats),
    ("ping", fun j => do return Json.mkObj [("ok", encPkg (← decPkg (← j.getObjVal? "pkg")))])]
 
 def handle (line : String) : String :=
